@@ -36,7 +36,7 @@ BASE_NOTE = ("Decided relative to the repository's own simulated kernel (Virtual
              "feature verif-hooks; seeded sampling, not enumeration, unless stated; probe built-ins and the outer scheduler are harness code.")
 
 check("C13", "exploration",
-      "Race-free generated shell programs with up to ~6 concurrently live processes run whole on the simulated OS under a seeded scheduler (FIFO baseline, random, PCT, round-robin, FIFO-with-deviations) with preemption at kernel-call boundaries and short I/O; oracles: termination (deadlock = no runnable task and no timer), stdout/$?/final status equal to a reference interpreter of the generator AST and identical across schedules, wait results equal exit statuses and never precede exit, every awaited child reaped exactly once, no zombie. Separate fault configurations with a narrowly relaxed oracle (termination, true wait statuses, nothing runs after its death): the k-th fork fails with EAGAIN; children are killed with SIGKILL from outside at seeded instants (crash injection). A kernel-level engine drives the simulated process table (fork, exit, setpgid, kill to a process or a process group incl. STOP/CONT/KILL, signal masks, dispositions, wait) through seeded histories against a POSIX life-cycle model (each state change reported once and truthfully, ECHILD only when nothing is left, zombies and reaped processes immune, stopped processes hold signals until SIGCONT). A fifth of the programs trap SIGUSR1 in the main shell and have foreground children send it. Sampling many interleavings is the right level because the property is quantified over schedules the test suite's single FIFO executor never produces.",
+      "Race-free generated shell programs with up to ~6 concurrently live processes run whole on the simulated OS under a seeded scheduler (FIFO baseline, random, PCT, round-robin, FIFO-with-deviations) with preemption at kernel-call boundaries and short I/O; oracles: termination (deadlock = no runnable task and no timer), stdout/$?/final status equal to a reference interpreter of the generator AST and identical across schedules, wait results equal exit statuses and never precede exit, every awaited child reaped exactly once, no zombie. Separate fault configurations with a narrowly relaxed oracle (termination, true wait statuses, nothing runs after its death): the k-th fork fails with EAGAIN; children are killed with SIGKILL from outside at seeded instants (crash injection). A kernel-level engine drives the simulated process table (fork, exit, setpgid, kill to a process or a process group incl. STOP/CONT/KILL, signal masks, dispositions, wait) through seeded histories against a POSIX life-cycle model (each state change reported once and truthfully, ECHILD only when nothing is left, zombies and reaped processes immune, stopped processes hold signals until SIGCONT). A fifth of the programs trap SIGUSR1 in the main shell and have foreground children send it; blocks may run inside `eval` / `command eval` (children awaited inside a built-in, in interactive programs next to the helper that records caught signals). Sampling many interleavings is the right level because the property is quantified over schedules the test suite's single FIFO executor never produces.",
       BASE_NOTE, "deterministic simulation: seeded scheduler on the Executor seam + preemption hooks, reference-interpreter oracle", "DESIGN.md section 4 C13")
 
 check("C14", "exploration",
@@ -54,7 +54,7 @@ check("C09", "fault_enumeration",
       "deterministic simulation with enumerated fault injection (every fd-allocation failure position per program) + reference redirection-table model", "DESIGN.md section 4 C09")
 
 check("C08", "exploration",
-      "Generated programs place 41 kinds of state-mutating commands (including closing descriptor 0, array values, starting asynchronous jobs, assignments made by `${x:=v}` and `$((x=1))`, and setting `$?`) before and inside every kind of subshell (( ), $( ), both pipeline elements, asynchronous lists, nested to depth 3); a probe serialises the complete shell state (`$?`, variables+attributes, positional parameters, functions, aliases, options, traps, cwd, umask, limits, descriptor table by open-file-description identity, signal dispositions, mask) around each one. Oracles: the parent's snapshot is unchanged by whatever the child does - also while an asynchronous child is still running, under seeded schedules with preemption between any two kernel calls of the parent; the child's entry snapshot equals the parent's except exactly the documented differences (context stack: the parent's plus the subshell frames; a third of the tests run inside a loop body or an `if` condition); data written to shared files/pipes arrives (positive control). Crash-injection runs (children killed with SIGKILL from outside at seeded instants) keep the leak oracle and check every snapshot that was still taken; so do runs in which one seeded descriptor allocation fails with EMFILE and runs under a descriptor limit of 10 (no descriptor for the shell's own use can be allocated; job control switched on afterwards). Every program also runs once in an interactive shell (the shell's own signal handling must not be handed down to its subshells). A virtual fork is an in-memory clone sharing reference-counted parts, so leaks are schedule dependent - which only a controlled scheduler explores. A further kind of test lets a pipeline element start two asynchronous writers that share its standard output (a pipe with a slow reader, more data than it holds) and wait for them: its snapshots before and after must agree, including the mode (O_NONBLOCK) of every open file description, which the writers switch temporarily.",
+      "Generated programs place 41 kinds of state-mutating commands (including closing descriptor 0, array values, starting asynchronous jobs, assignments made by `${x:=v}` and `$((x=1))`, and setting `$?`) before and inside every kind of subshell (( ), $( ), both pipeline elements, asynchronous lists, nested to depth 3); a probe serialises the complete shell state (`$?`, variables+attributes, positional parameters, functions, aliases, options, traps, cwd, umask, limits, descriptor table by open-file-description identity, signal dispositions, mask) around each one. Oracles: the parent's snapshot is unchanged by whatever the child does - also while an asynchronous child is still running, under seeded schedules with preemption between any two kernel calls of the parent; the child's entry snapshot equals the parent's except exactly the documented differences (context stack: the parent's plus the subshell frames; a third of the tests run inside a loop body or an `if` condition); data written to shared files/pipes arrives (positive control). Crash-injection runs (children killed with SIGKILL from outside at seeded instants) keep the leak oracle and check every snapshot that was still taken; so do runs in which one seeded descriptor allocation fails with EMFILE and runs under a descriptor limit of 10 (no descriptor for the shell's own use can be allocated; job control switched on afterwards). Every program also runs once in an interactive shell (the shell's own signal handling must not be handed down to its subshells). A virtual fork is an in-memory clone sharing reference-counted parts, so leaks are schedule dependent - which only a controlled scheduler explores. A further kind of test lets a pipeline element start two asynchronous writers that share its standard output (a pipe with a slow reader, more data than it holds) and wait for them: its snapshots before and after must agree, including the mode (O_NONBLOCK) of every open file description, which the writers switch temporarily. Kind CsSig forks a command substitution while a trapped signal is still pending in the parent: pending signals are not handed down (the child must live to take its entry snapshot).",
       BASE_NOTE, "deterministic simulation: full-state snapshots around subshells under seeded schedules with preemption", "DESIGN.md section 4 C08")
 
 check("C15", "exploration",
@@ -72,7 +72,7 @@ check("C11", "exploration",
       BASE_NOTE, "deterministic simulation: operation histories vs reference merge model + signal injection at seeded scheduler steps vs pending-flag model", "DESIGN.md section 4 C11")
 
 check("C19", "exploration",
-      "Differential check whose deciding step stays inside the simulator (plus, underneath it, an engine that issues the same seeded sequences of file-system and descriptor calls - in the shapes the shell uses - through the yash_env::system traits to VirtualSystem and, in a child process in a scratch directory, to RealSystem, and compares every result): generated programs (redirections, descriptor duplication/closing, cd, globbing incl. hidden files, pipelines, command substitution, subshells, & + wait, traps with self-signals, signals to children, umask and modes, symlinks, a named FIFO, error cases) are first run on the simulated OS under the FIFO schedule and seeded schedules with preemption; only programs whose stdout, status and file tree are the same under every schedule (confluent) are run - twice - on the real kernel through the same shell glue and probe built-ins on RealSystem in a scratch directory, and compared with the simulated outcome (stdout bytes, exit status, stderr emptiness, file tree with contents and permission bits). Divergences are minimised at once so that their key names the operation involved; four modelling limits of the simulated file system are listed as known findings.",
+      "Differential check whose deciding step stays inside the simulator (plus, underneath it, an engine that issues the same seeded sequences of file-system and descriptor calls - in the shapes the shell uses - through the yash_env::system traits to VirtualSystem and, in a child process in a scratch directory, to RealSystem, and compares every result): generated programs (redirections, descriptor duplication/closing, cd, globbing incl. hidden files, pipelines, command substitution, subshells, & + wait, traps with self-signals, signals to children, umask and modes, symlinks, a named FIFO, error cases) are first run on the simulated OS under the FIFO schedule and seeded schedules with preemption; only programs whose stdout, status and file tree are the same under every schedule (confluent) are run - twice - on the real kernel through the same shell glue and probe built-ins on RealSystem in a scratch directory, and compared with the simulated outcome (stdout bytes, exit status, stderr emptiness, file tree with contents and permission bits). Divergences are minimised at once so that their key names the operation involved; four modelling limits of the simulated file system are listed as known findings. Engine (s) also has paired probes carried out with plain libc calls on the real side: a zombie child (kill / wait) and a process that blocks, unblocks and sends itself TSTP / TTIN / CONT / USR1 / TERM with handlers installed (which signals stay pending: SIGCONT discards pending stop signals and vice versa).",
       "The real execution is observed, not simulated: it is confined to programs the simulator has shown schedule-independent and repeated twice (non-reproducible programs are discarded and counted). Not covered: execve, SIGPIPE, terminals/sessions, wall-clock timing, permission-denied cases (root), pids, error-message wording.",
       "deterministic simulation establishes confluence; differential comparison of confluent programs against the real kernel", "DESIGN.md section 4 C19")
 
